@@ -216,7 +216,7 @@ def run_topdown(case, provider, slp, paths, skel):
     )
     icfg = OmegaConf.create(
         {
-            "data_config": {"preprocessing": {"scale": s2, "is_rgb": rgb, "max_height": case["max_h"], "max_width": case["max_w"], "crop_hw": [case["crop"], case["crop"]]}},
+            "data_config": {"preprocessing": {"scale": s2, "is_rgb": rgb, "max_height": case["max_h"], "max_width": case["max_w"], "crop_hw": [case["crop"], case.get("crop_w") or case["crop"]]}},
             "model_config": {
                 "backbone_config": {"unet": {"max_stride": case["max_stride2"]}},
                 "head_configs": {"centered_instance": {"confmaps": {"output_stride": case["stride2"], "anchor_part": case.get("anchor"), "part_names": [n.name for n in skel.nodes]}}},
@@ -280,7 +280,8 @@ def evaluate(case):
                 "sizematch=" + ("none" if eff == 1.0 and case["max_h"] in (None, case["h"]) else ("up" if eff > 1 else ("down" if eff < 1 else "pad"))))
         if kind == "topdown":
             na = max(len(f) for f in case["frames"])
-            res.cls(f"scale2={case['scale2']}", f"kind|scales=topdown|{case['scale']}|{case['scale2']}", f"topdown|s2={case['scale2']}|animals={min(na, 2)}")
+            res.cls(f"scale2={case['scale2']}", f"kind|scales=topdown|{case['scale']}|{case['scale2']}", f"topdown|s2={case['scale2']}|animals={min(na, 2)}",
+                    "crop=square" if (case.get("crop_w") or case["crop"]) == case["crop"] else "crop=non-square")
         else:
             res.cls(f"kind|scale=single|{case['scale']}")
         results = {}
@@ -422,7 +423,10 @@ def strategy(tier):
             while ext_ < 4.0 and crop < 96:
                 crop = {32: 48, 48: 64, 64: 96}[crop]
                 ext_ = min((crop / 2.0 - 3.0 * stride2 - 2.0) / (s2 * eff_guess), 30.0)
-            sep_ = math.hypot(crop, crop) / (s2 * eff_guess) + 2 * ext_ + 6 * max(cell_, cell1_)
+            # non-square crops: `crop` is the short side (bounds the extent), `crop_long` the other one
+            crop_long = crop if draw(st.booleans()) else crop + draw(st.sampled_from([8, 16, 32]))
+            crop_w_first = draw(st.booleans())
+            sep_ = math.hypot(crop, crop_long) / (s2 * eff_guess) + 2 * ext_ + 6 * max(cell_, cell1_)
             need_w = 2 * (margin_ + ext_) + (gx_ - 1) * sep_ + 8
             need_h = 2 * (margin_ + ext_) + (gy_ - 1) * sep_ + 8
             w = int(min(250, max(48, math.ceil(need_w) + draw(st.integers(0, 24)))))
@@ -460,7 +464,7 @@ def strategy(tier):
         if kind == "topdown":
             ext = (crop / 2.0 - 3.0 * st_last - 2.0) / (s2 * eff)  # max extent about the anchor that fits the crop (orig px)
             ext = min(ext, 30.0)
-            sep = math.hypot(crop, crop) / (s2 * eff) + 2 * ext + 6 * max(cell, cell1)
+            sep = math.hypot(crop, crop_long) / (s2 * eff) + 2 * ext + 6 * max(cell, cell1)
         else:
             ext = min(h, w) / 2.0 - margin
             sep = None
@@ -527,7 +531,10 @@ def strategy(tier):
         return {
             "kind": kind, "image": image, "scale": s1, "scale2": s2, "refinement": refinement, "stride": stride, "stride2": stride2,
             "max_stride": max_stride, "max_stride2": max_stride2, "h": h, "w": w, "max_h": mh, "max_w": mw, "n_nodes": n_nodes,
-            "anchor": anchor, "batch": batch, "crop": crop, "blob_sigma": blob_sigma, "frames": frames,
+            "anchor": anchor, "batch": batch, "blob_sigma": blob_sigma, "frames": frames,
+            # crop_hw = [crop, crop_w]
+            "crop": (crop if kind != "topdown" or not crop_w_first else crop_long) if kind == "topdown" else None,
+            "crop_w": ((crop_long if not crop_w_first else crop) if kind == "topdown" else None),
         }
 
     return case()
